@@ -62,7 +62,8 @@ def run_case(case):
         pel = dirrun.mk_pel(rng, e, plid=rng.choice(PLIDS + [e]), bmc=rng.choice(BMCS), ref=rng.choice(dirrun.REFS + dirrun.REFS + dirrun.REFS_LONG),
                             sev=rng.choice([0x40, 0x00, 0x20, 0x51]), flags=rng.choice([0x2000, 0x6000, 0x0000, 0x8000]),
                             creator=rng.choice(['O', 'B', 'H', 'H']), lead=True)
-        nm = '%s_%08X' % (rng.choice(['2023030818402711', '2024', 'x']), e)
+        nm = rng.choice(['2023030818402711_%08X', '2024_%08X', 'x_%08X', '%08X_fan_fault', 'pel-%08X-copy.bin',
+                         '2023051210203041_%08X.pel', '%08X']) % e
         data = bytes(encode.encode(pel))
         files.append((nm, data))
         fattrs.append(dirrun.attrs(pel, nm, data))
